@@ -61,6 +61,8 @@ def rounding_facts(formulas):
         seen.add(k)
         if z3.is_app(e):
             d = e.decl()
+            if e.num_args() != 1 or d.kind() != z3.Z3_OP_UNINTERPRETED:
+                todo.extend(e.children()); continue
             if d.eq(CEIL) or d.eq(CEILI):
                 a = e.arg(0); c = CEIL(a)
                 out += [c == z3.ToReal(CEILI(a)), c >= a, c < a + 1]
@@ -139,7 +141,7 @@ class Qty:
 class Vec:
     """hourly series view (phys level).  val(t) is only meaningful where inidx(t)."""
     def __init__(self, inidx, val, total=None, tmax=None, tmin=None, n=None, origin=None):
-        self.inidx, self._val, self.total = inidx, val, total
+        self.inidx, self._val, self.total = _memo(inidx), _memo(val), total
         self.tmax, self.tmin, self.n = tmax, tmin, n   # optional z3 terms (index max/min ticks, length)
         self.origin = origin if origin is not None else self  # the Vec whose index this one shares (positional ops)
 
@@ -150,11 +152,27 @@ class Vec:
         return self.origin is o.origin
 
 
+def _memo(f):
+    """closures over time are evaluated many times at the same few points: cache by z3 ast id"""
+    if getattr(f, "_memoized", False): return f
+    cache = {}
+    def g(t):
+        k = t.get_id() if z3.is_expr(t) else ("py", t)
+        hit = cache.get(k)
+        if hit is None:
+            hit = (t, f(t)); cache[k] = hit
+        return hit[1]
+    g._memoized = True
+    return g
+
+
 def base_vec(name, nonneg=False):
     fin = z3.Function(f"{name}.in", I, B); fv = z3.Function(f"{name}.val", I, R)
     v = Vec(lambda t: fin(t), lambda t: fv(t), total=z3.Const(f"{name}.total", R),
             tmax=z3.Const(f"{name}.tmax", I), tmin=z3.Const(f"{name}.tmin", I), n=z3.Const(f"{name}.len", I))
     v.name = name
+    fp = z3.Function(f"{name}.prefix", I, R)
+    v.prefix = lambda t: fp(t)
     v.fin, v.fv = fin, fv
     return v
 
@@ -247,10 +265,11 @@ class SRange:
 
 class PyNum:
     """python int/float: z3 Int or Real term (floats are mathematical reals: assumption A-REAL)"""
-    __slots__ = ("z",)
+    __slots__ = ("z", "sign_term")
 
-    def __init__(self, z):
+    def __init__(self, z, sign_term=None):
         self.z = z
+        self.sign_term = sign_term    # a term with the same sign (magnitude = phys/factor, factor > 0): keeps sign tests linear
 
     @property
     def is_int(self): return self.z.sort() == I
